@@ -45,4 +45,25 @@ theorem rank_decreases (N : ℕ) (req : ℕ → Prop) (g nxt k : ℕ) (hg : g < 
 theorem served_within (N g k : ℕ) (hg : g < N) (hk : k < N) : dist N g k ≤ N - 1 := by
   have := dist_lt N g k hg hk; omega
 
+/-- position, in program order, of the conditional assignment `if req v: grant := v` inside `Case(g)` of Arbiter.elaborate:
+    first the predecessors g-1, ..., 0, then the successors N-1, ..., g+1 (contracts/arbiter_l1.py proves that the real source
+    issues exactly these statements at exactly these positions, for every N) -/
+def pos (N g v : ℕ) : ℕ := if v < g then g - 1 - v else g + (N - 1 - v)
+
+/-- "the last assignment whose condition holds wins" picks the requester closest after the owner, for ALL N -/
+theorem last_wins_is_next (N : ℕ) (req : ℕ → Prop) (g w : ℕ) (hg : g < N) (hw : w < N) (hwg : w ≠ g) (hreq : req w)
+    (hlast : ∀ v, v < N → v ≠ g → req v → pos N g v ≤ pos N g w) : IsNext N req g w := by
+  refine ⟨hw, hreq, hwg, ?_⟩
+  intro j hj hrj hjg
+  have h := hlast j hj hjg hrj
+  rw [dist_eq N g w hg hw, dist_eq N g j hg hj]
+  unfold pos at h
+  split_ifs at h ⊢ <;> omega
+
+/-- and when nobody else requests, no assignment fires: the owner stays -/
+theorem nobody_else_no_assignment (N : ℕ) (req : ℕ → Prop) (g : ℕ)
+    (hnone : ∀ v, v < N → v ≠ g → ¬ req v) : ¬ ∃ v, v < N ∧ v ≠ g ∧ req v := by
+  rintro ⟨v, hv, hvg, hr⟩
+  exact hnone v hv hvg hr
+
 end Verif
